@@ -231,7 +231,16 @@ Fixpoint launch_all (ds : list tdesc) (ls : list launch) : list rtask :=
   | [] => []
   | d :: r => task_launched (hd LRun ls) d :: launch_all r (tl ls)
   end.
-Definition deploy_ok (ts : list rtask) (ncalls : N) : bool := status_beq (wf_status ts ncalls) ACTIVE.
+(* [wf_status] - the root's cached status is the fold over its leaves once every update has run -
+   is true of the code only because every merge on the way up (SafeStatus.merge of each aggregator,
+   one goroutine per Mesos status update) re-aggregates the children and stores the result in one
+   critical section: [status_merge_atomic] (RoleTree.v section 7b) is computed from what the
+   translator mergeatomic counts in core/workflow/safestatus.go (gen/Gen_MergeAtomic.v,
+   regenerated on every run).  When the source does not say so an update can be lost (a stale
+   PARTIAL stored over ACTIVE) and nothing is promised about what DEPLOY sees: it is modelled as
+   never seeing ACTIVE, and the theorems about DEPLOY carry the fact as a hypothesis. *)
+Definition deploy_ok (ts : list rtask) (ncalls : N) : bool :=
+  status_merge_atomic && status_beq (wf_status ts ncalls) ACTIVE.
 
 (* envman.CreateEnvironment: DEPLOY, CONFIGURE; on failure GO_ERROR, teardown, error returned *)
 Definition create (ds : list tdesc) (ncalls : N) (ls : list launch) (oc : list outc) : option sys * step_obs :=
